@@ -7,7 +7,11 @@ Record obs_state := { os_pending : list pending; os_args : list (list (str * lis
                       os_pk : option (option bool * bool); os_sap : option label; os_dk : option (bool * bool);
                       os_help_skip : bool; os_unexplained : bool }.
 
-Record case := { c_decls : list decl; c_prefix : list op; c_op : op;
+(* c_fx: which of the three repairs the tree under test contains.  The harness determines it by running the three
+   refutation witnesses of Properties/C09.v on the implementation (tie/props/c09.py, probe): a repair is taken as
+   present exactly when its witness no longer reproduces.  It only selects between the pinned and the repaired
+   variant of each of the three code sites; any other behaviour disagrees with both variants. *)
+Record case := { c_fx : fixes; c_decls : list decl; c_prefix : list op; c_op : op;
                  c_pre : obs_state; c_post : obs_state;
                  c_reused : answer; c_fresh : answer }.
 
@@ -77,14 +81,15 @@ Definition state_agrees (Ds : list decl) (s : state) (o : obs_state) : bool :=
 Definition judge1 (c : case) : verdict :=
   let Ds := c_decls c in
   let s0 := init (length Ds) in
-  let s := run false Ds s0 (c_prefix c) in
-  let '(s', o) := step false Ds s (c_op c) in
-  let o_fresh := snd (step false Ds s0 (c_op c)) in
+  let fx := c_fx c in
+  let s := run fx Ds s0 (c_prefix c) in
+  let '(s', o) := step fx Ds s (c_op c) in
+  let o_fresh := snd (step fx Ds s0 (c_op c)) in
   let same := same_answer (c_reused c) (c_fresh c) in
   {| v_model := state_agrees Ds s (c_pre c) && state_agrees Ds s' (c_post c)
                 && N.eqb (kind_of o) (fst (c_reused c)) && N.eqb (kind_of o_fresh) (fst (c_fresh c))
                 && Bool.eqb (out_eqb o o_fresh) same;
-     v_class := guard_class s (c_op c);
+     v_class := guard_class fx s (c_op c);
      v_spec := same |}.
 
 Definition judge (cs : list case) := judge_all judge1 cs.
